@@ -16,7 +16,7 @@ pub struct HistCheck {
     pub thorough: (u64, usize),
     pub classify: fn(&Machine, &mut CaseOut),
     /// minimal tapes of listed known findings, run once per run in strict mode
-    pub probes: &'static [&'static str],
+    pub probes: &'static [fn() -> Tape],
 }
 
 fn run_machine(tape: &Tape, profile: Profile, trace: bool) -> (Option<Machine>, Result<(), Failure>) {
@@ -74,8 +74,8 @@ impl Check for HistCheck {
     fn extra(&self, _tier: Tier, _seed: u64, acc: &mut crate::driver::Acc) -> Vec<(Failure, Option<Tape>)> {
         let mut out = vec![];
         let mut n = 0;
-        for hex in self.probes {
-            let Some(tape) = Tape::from_hex(hex) else { continue };
+        for mk in self.probes {
+            let tape = mk();
             n += 1;
             let r = crate::driver::catch(|| run_machine_mode(&tape, (self.profile)(&tape), false, true).1);
             match r {
@@ -323,6 +323,15 @@ fn c_c13(m: &Machine, out: &mut CaseOut) {
     out.class_n("compactions refused (reason checked)", u64::from(m.stats.compactions_refused));
 }
 
+/// known finding C13/compact-at-rest-growth-within-doubling: empty database, close, open,
+/// compact (measured at rest), close
+fn probe_c13_empty_compact() -> Tape {
+    let mut cfg = [0u8; 16];
+    cfg[1] = 0xb7; // 2 MiB regions
+    let p = p_c13(&Tape { cfg, recs: vec![] });
+    build_tape(&p, cfg, &[(kind::COMPACT, &[0])])
+}
+
 pub fn c13() -> HistCheck {
     HistCheck {
         id: "C13",
@@ -332,7 +341,7 @@ pub fn c13() -> HistCheck {
         quick: (1500, 200),
         thorough: (30_000, 260),
         classify: c_c13,
-        probes: &["00b70000000000000000000000000000 e91400000000000000000000"],
+        probes: &[probe_c13_empty_compact],
     }
 }
 
